@@ -1,5 +1,5 @@
 package main
 
 func init() {
-	mirror("dirhash.hash1")
+	mirror("dirhash.hash1", "dirhash.dirfiles", "dirhash.hashdir", "dirhash.dirfilesat", "dirhash.hashdirat", "dirhash.dirfilesrel", "dirhash.hashdirrel")
 }
